@@ -158,7 +158,9 @@ Fixpoint do_burst (fuel : nat) (rs : rstate) (c mt : N) (runs : list (N * N)) (g
 Definition sexp_of_runs (runs : list (N * N)) : sexp :=
   SList (map (fun p => SList [snat (fst p); snat (snd p)]) (rev runs)).
 
-Definition run_event (rs : rstate) (e : sexp) : rstate :=
+(* [pl]: project the result of a `late` call to ok / err (C12: whether it is the
+   write error or ErrClosed depends on how far the shutdown has got) *)
+Definition run_event (pl : bool) (rs : rstate) (e : sexp) : rstate :=
   if head_is e "req" then do_req rs (get_N (arg e 0)) (get_N (arg e 1)) (get_bool (arg e 2))
   else if head_is e "resp" then do_resp rs (get_N (arg e 0)) (get_N (arg e 1)) (get_N (arg e 2))
   else if head_is e "burst" then
@@ -178,19 +180,23 @@ Definition run_event (rs : rstate) (e : sexp) : rstate :=
     let c := get_N (arg e 0) in
     let mt := get_N (arg e 1) in
     match send_first (h_closed (rs_h rs)) false (h_running (rs_h rs)) with
-    | Some s :: _ => push_return rs c (SList [ssym "d"; snat c; sexp_of_cres mt (client_result mt s)])
+    | Some s :: _ =>
+        let r := client_result mt s in
+        push_return rs c (SList [ssym "d"; snat c;
+                                 if pl then match r with COk _ => sexp_of_cres mt r | _ => ssym "err" end
+                                 else sexp_of_cres mt r])
     | None :: _ => do_req rs c mt true
     | [] => push rs (SList [ssym "blocked"; snat c])
     end
   else push rs (ssym "unknown-event").
 
-Definition run_sched (c : sexp) : sexp :=
-  let rs := fold_left run_event (get_list (arg c 0)) rs_init in
+Definition run_sched (pl : bool) (c : sexp) : sexp :=
+  let rs := fold_left (run_event pl) (get_list (arg c 0)) rs_init in
   SList (rev (rs_obs rs)).
 
 Definition run_case (c : sexp) : sexp :=
   if head_is c "alloc" then run_alloc c
-  else if head_is c "sched" then run_sched c
+  else if head_is c "sched" then run_sched false c
   else SList [ssym "unknown-case"].
 
 Definition run_line (line : list N) : list N := print_sexp (run_case (parse_sexp line)).
